@@ -87,7 +87,7 @@ def inventory(build_dir):
     try:
         from tools import vlib
         txt = open(os.path.join(vlib.LEAN, "SimbodyProofs", "C46.lean")).read()
-        for k, m in enumerate(re.finditer(r'\("((?:[^"\\]|\\.)*)",\s*\w+\)', txt)):
+        for k, m in enumerate(re.finditer(r'\(key!\s*"((?:[^"\\]|\\.)*)",\s*\w+\)', txt)):
             pos.setdefault(m.group(1).replace('\\"', '"').replace("\\\\", "\\"), k)
     except OSError:
         pass
@@ -107,11 +107,13 @@ def gen(ctx):
              "   template arguments collapsed to <*>, `[abi:cxx11]` and symbol versions stripped, GCC `.123` suffixes -> `.N`,",
              "   `guard variable for X` -> entry X with guard := true.  Duplicates removed; emitted in allow-list order. -/",
              "import SimbodyModel.C46",
+             "import SimbodyModel.C46_key",
              "namespace C46.Gen",
+             "open C46 C46.Sect",
              "def statics : List C46.Sym := ["]
     for k, (lib, s, guard, name) in enumerate(syms):
-        lines.append("  ⟨%s, %s, %s, %s⟩%s" % (lean_str(lib), lean_str(s), "true" if guard else "false", lean_str(name),
-                                               "," if k + 1 < len(syms) else ""))
+        lines.append("  ⟨%s, %s, %s, key! %s, %s⟩%s" % (lean_str(lib), s.lstrip("."), "true" if guard else "false", lean_str(name),
+                                                         lean_str(name), "," if k + 1 < len(syms) else ""))
     lines += ["]", "end C46.Gen", ""]
     txt = "\n".join(lines)
     path = os.path.join(vlib.LEAN, GEN_REL)
@@ -130,7 +132,7 @@ def gen(ctx):
 SPEC = dict(
     prop="C46",
     proof_module="SimbodyProofs.C46",
-    sources=["SimbodyModel/Proto.lean", "SimbodyModel/C46.lean", "SimbodyModel/Gen/Statics.lean", "SimbodyProofs/C46.lean",
+    sources=["SimbodyModel/Proto.lean", "SimbodyModel/C46.lean", "SimbodyModel/C46_key.lean", "SimbodyModel/Gen/Statics.lean", "SimbodyProofs/C46.lean",
              "Drivers/C46.lean"],
     lake_targets=["SimbodyModel.Gen.Statics"],
     gen=gen,
